@@ -3,6 +3,7 @@ package c11
 import (
 	"fmt"
 	"testing"
+	"time"
 
 	"pgregory.net/rapid"
 	"verif/internal/ev"
@@ -10,7 +11,13 @@ import (
 
 // runGenerated executes one generated case inside a rapid property and records statistics.
 func runGenerated(t *rapid.T, c *ev.Case, md mode, o runOpts) {
-	cd, gi := genCase(t, md)
+	var cd caseDesc
+	var gi *genInfo
+	if md.alterDur {
+		cd, gi = genCaseAlterDur(t, md)
+	} else {
+		cd, gi = genCase(t, md)
+	}
 	c.Sample(cd)
 	c.Class(fmt.Sprintf("pt=%d", gi.ptNum))
 	if cd.Cfg.Nodes > 1 {
@@ -65,6 +72,7 @@ func runGenerated(t *rapid.T, c *ev.Case, md mode, o runOpts) {
 			c.Class("altered")
 		}
 		nt := md.cond == "" && st.rowsDelivered >= 2 && st.groups >= 2
+		durationClasses(c, st)
 		for _, q := range st.queries {
 			if q.skipped != "" {
 				switch {
@@ -124,6 +132,21 @@ func runGenerated(t *rapid.T, c *ev.Case, md mode, o runOpts) {
 			if q.matches >= 1 && (pruned || ((q.hasOr || q.hasField || q.hasOtherTag) && q.matchShards >= 2)) {
 				nt = true
 			}
+			if md.alterDur {
+				windowClasses(c, &q)
+			}
+		}
+		if md.alterDur {
+			// non-trivial: the policy holds live groups of >= 2 widths after >= 1 duration change and some query with a
+			// lower and an upper time bound has a matching row
+			nt = false
+			if st.durChanges >= 1 && st.widths >= 2 {
+				for _, q := range st.queries {
+					if q.skipped == "" && q.lowerBound && q.upperBound && q.matches >= 1 {
+						nt = true
+					}
+				}
+			}
 		}
 		if nt {
 			c.Nontrivial(cd)
@@ -137,6 +160,105 @@ func runGenerated(t *rapid.T, c *ev.Case, md mode, o runOpts) {
 		fmt.Printf("VERIF-INCONCLUSIVE harness error: %.600v\ncase: %.3000s\n", err, cd.String())
 		c.Class("harness-error")
 		t.Skip("harness error")
+	}
+}
+
+// durationClasses: what a history with shard-group duration changes exercised (route_alter_duration).
+func durationClasses(c *ev.Case, st *caseStats) {
+	if st.durChanges == 0 {
+		return
+	}
+	if st.lengthened > 0 {
+		c.Class("duration-lengthened")
+	}
+	if st.shortened > 0 {
+		c.Class("duration-shortened")
+	}
+	if st.lengthened > 0 && st.shortened > 0 {
+		c.Class("duration-both-directions")
+	}
+	if st.durChanges >= 2 {
+		c.Class("duration-changes>=2")
+	}
+	if st.unalignedChange > 0 {
+		c.Class("duration-change-not-a-multiple")
+	}
+	if st.widths >= 2 {
+		c.Class("group-widths>=2")
+	}
+	if st.widths >= 3 {
+		c.Class("group-widths>=3")
+	}
+	if st.overlapPairs > 0 {
+		c.Class("overlapping-groups-present")
+		// the "no two live groups overlap" check is not applied to these histories: known finding of property C16
+		c.Excluded("C16-overlap-after-shard-duration-change:live-groups-overlap")
+	}
+	if st.containedPairs > 0 {
+		c.Class("narrow-group-inside-wide-group")
+	}
+	if st.overlapPairs > st.containedPairs {
+		c.Class("groups-partially-overlapping")
+	}
+	if st.newNextToOld > 0 {
+		c.Class("new-width-group-next-to-or-over-old-width-group")
+	}
+	if st.rowsOldWidth > 0 {
+		c.Class("row-into-group-of-old-duration")
+	}
+	if st.rowsNewWidth > 0 {
+		c.Class("row-into-group-created-after-change")
+	}
+	if st.rowsInTwoGroups > 0 {
+		c.Class("row-time-in-2-live-groups")
+	}
+	if st.rewritesInTwo > 0 {
+		c.Class("rewrite-of-point-in-2-live-groups")
+	}
+	for i := 0; i < st.movedInOverlap; i++ {
+		c.Class("rewrite-moved-between-overlapping-groups")
+		c.Excluded("C16-overlap-after-shard-duration-change:rewrite-moved-to-another-containing-group")
+	}
+}
+
+// windowClasses: shape of a query's time range against the catalogue (route_alter_duration).
+func windowClasses(c *ev.Case, q *queryInfo) {
+	switch {
+	case q.lowerBound && q.upperBound:
+		c.Class("q:bounded")
+		switch {
+		case q.rangeNanos <= int64(time.Hour):
+			c.Class("q:window<=1h")
+		default:
+			c.Class("q:window>1h")
+		}
+		if q.matches >= 1 {
+			c.Class("q:bounded+match")
+		}
+	case q.lowerBound:
+		c.Class("q:half-open-lower-bound-only")
+	case q.upperBound:
+		c.Class("q:half-open-upper-bound-only")
+	default:
+		c.Class("q:unbounded")
+	}
+	if q.groupsInRng == 0 {
+		c.Class("q:no-group-in-range")
+	}
+	if q.widthsInRng >= 2 {
+		c.Class("q:group-widths-in-range>=2")
+	}
+	if q.overlapInRng {
+		c.Class("q:overlapping-groups-in-range")
+	}
+	if q.crossesBoundary && q.lowerBound && q.upperBound {
+		c.Class("q:window-crosses-group-boundary")
+	}
+	if q.beforeEarlierSorted {
+		c.Class("q:window-inside-wide-group-but-before-narrow-group")
+	}
+	if q.beforeEarlierSortedMatch {
+		c.Class("q:window-inside-wide-group-but-before-narrow-group+match")
 	}
 }
 
@@ -159,6 +281,14 @@ func TestRouteHash(t *testing.T) {
 func TestRouteHashAlter(t *testing.T) {
 	rapid.Check(t, ev.Prop(prop, "route_hash_alter", func(t *rapid.T, c *ev.Case) {
 		runGenerated(t, c, mode{sharding: "hash", alter: true}, runOpts{})
+	}))
+}
+
+// routing and shard-set completeness over histories that change the policy's shard-group duration between batches
+// (groups of different widths, time-bounded queries).
+func TestRouteAlterDuration(t *testing.T) {
+	rapid.Check(t, ev.Prop(prop, "route_alter_duration", func(t *rapid.T, c *ev.Case) {
+		runGenerated(t, c, mode{sharding: "hash", alterDur: true, cond: "window"}, runOpts{})
 	}))
 }
 
